@@ -67,16 +67,11 @@ func Harness_C04_broadcast_on_change() {
 		b.mutex.Unlock()
 	}()
 	go func() {
-		// wait until the waiter is parked, then mutate
-		for {
-			b.mutex.Lock()
-			parked := verifCondWaiters(b.cond) > 0
-			b.mutex.Unlock()
-			if parked {
-				break
-			}
-			verifYield()
-		}
+		// only schedules in which the waiter is already parked are of interest (assumption)
+		b.mutex.Lock()
+		parked := verifCondWaiters(b.cond) > 0
+		b.mutex.Unlock()
+		verifAssume(parked)
 		switch op {
 		case 0:
 			_ = b.Put(context.Background(), vtok(9))
@@ -92,5 +87,35 @@ func Harness_C04_broadcast_on_change() {
 	verifDaemon(".NewConsumer$1")
 	verifFinally(func() {
 		verifAssert(woken, "every_state_change_broadcasts")
+	})
+}
+
+// C04 cleaner_recheck: the real cleanup goroutine with a counting cleaner on an empty Buffer. A state
+// change (made under b.mutex, followed by a broadcast, exactly like commit/delete/Put do) arrives at an
+// arbitrary moment, possibly during the cooldown; the timer fires at an arbitrary moment. At quiescence the
+// cleaner must have looked at the buffer at least once after the change - otherwise a reclaimable prefix
+// would stay until some unrelated later operation.
+func Harness_C04_cleaner_recheck() {
+	verifDaemon(".cleanup")
+	verifDaemon(".WaitCond$1")
+	b := new(Buffer)
+	changed, sawChange := false, false
+	verifAtomic(func() {
+		_ = b.SetCleanerConfig(CleanerConfig{Cooldown: time.Millisecond, Cleaner: func(size int, offsets []int) int {
+			if changed {
+				sawChange = true
+			}
+			return 0
+		}})
+	})
+	go func() {
+		b.mutex.Lock()
+		changed = true
+		b.cond.Broadcast()
+		b.mutex.Unlock()
+	}()
+	verifFinally(func() {
+		verifAssert(sawChange, "cleaner_rechecks_after_a_change_during_cooldown")
+		verifReach("quiescent")
 	})
 }
